@@ -303,8 +303,11 @@ def coq_sample(rep, raw0, ncases, per_case, seed, n, cap):
 
 
 def replay_obj(seed, n, cap, case_id, extra):
-    d = {"property": "C07", "engine": "lift", "seed": seed, "n": n, "cap": cap, "case": int(case_id),
-         "rerun": "verif-harness lift %d %d %d %d %d | ocaml/_build/lift/driver_lift" % (seed, n, int(case_id) - 1, n, cap)}
+    cid = int(case_id)
+    # ids above 1000000 are the committed corpus (harness/src/lift.rs CORPUS), emitted by part 0 of every run
+    rerun = ("verif-harness lift %d 0 0 1 %d" % (seed, cap)) if cid > 1000000 else ("verif-harness lift %d %d %d %d %d" % (seed, n, cid - 1, n, cap))
+    d = {"property": "C07", "engine": "lift", "seed": seed, "n": n, "cap": cap, "case": cid,
+         "rerun": rerun + " | ocaml/_build/lift/driver_lift"}
     d.update(extra)
     return d
 
@@ -347,10 +350,23 @@ def report(rep, r, seed, n, cap):
                                       "no world over this script's atoms separates the implementation's policy from the spending condition")),
                       found)
     for p in r["panic"]:
-        rep.violation("panic:%s" % p.get("line", "PANIC").split()[1] if len(p.get("line", "").split()) > 1 else "panic",
-                      "library panicked: %s" % p.get("line", "")[:400],
+        rep.violation(panic_key(p), "library panicked: %s" % p.get("line", "")[:400],
                       replay_obj(seed, n, cap, p.get("case", 0), dict(p, failed_clause="lift / satisfier panicked")), True)
     return bad_cases
+
+
+def panic_key(p):
+    """Stable key of a panic observation, computed from the failing input."""
+    toks = p.get("line", "PANIC").split()
+    what = toks[1] if len(toks) > 1 else "unknown"
+    if what == "satisfier" and p.get("kind") == "sh":
+        try:
+            if max(int(x) for x in p.get("scriptlen", "0").split(",") if x) > 520:
+                # lift (lift_check) accepted a P2SH script whose redeem script exceeds 520 bytes; see known_findings.txt
+                return "panic:satisfier:sh-script-over-520"
+        except ValueError:
+            pass
+    return "panic:%s:%s" % (what, p.get("kind", "-"))
 
 
 def run(rep, tier, seed, replay):
@@ -362,7 +378,10 @@ def run(rep, tier, seed, replay):
         rp = json.load(open(replay))
         if "case" in rp and rp.get("engine") == "lift" and int(rp.get("case", 0)) > 0:
             rseed, rn, rcap, cid = int(rp["seed"]), int(rp["n"]), int(rp.get("cap", cap)), int(rp["case"])
-            raw, out = run_part(hbin, rseed, rn, cid - 1, rn, rcap, "replay")
+            if cid > 1000000:
+                raw, out = run_part(hbin, rseed, 0, 0, 1, rcap, "replay")
+            else:
+                raw, out = run_part(hbin, rseed, rn, cid - 1, rn, rcap, "replay")
             r = collect([out])
             report(rep, r, rseed, rn, rcap)
             s = r["summary"]
